@@ -93,7 +93,11 @@ type (
 )
 
 func (fn *FlowNode) filterAlias() string {
-	if fn.FilterAlias != "" {
+	// The built-in END filter is not a filter instance and can't be the
+	// target of a jump, so an alias on an END node is ignored. Otherwise a
+	// jump to a filter that shares the alias would stop at the END node,
+	// while ValidateJumpIf only counts the real filter as the target.
+	if fn.FilterAlias != "" && fn.FilterName != BuiltInFilterEnd {
 		return fn.FilterAlias
 	}
 	return fn.FilterName
